@@ -7,7 +7,7 @@ import (
 
 // ConsumerPlan describes the environment task reading one returned channel.
 type ConsumerPlan struct {
-	Abandon  int   `json:"abandon"`            // stop receiving for ever after this many elements; −1: never
+	Abandon  int   `json:"abandon"`             // stop receiving for ever after this many elements; −1: never
 	DelaysMs []int `json:"delays_ms,omitempty"` // virtual sleep before receive i (cyclic)
 	StartMs  int   `json:"start_ms,omitempty"`  // virtual sleep before the first receive
 }
@@ -38,23 +38,23 @@ type Plan struct {
 	FailAt []int   `json:"fail_at,omitempty"` // positions (element index / call index) where the user function fails
 	Monoid string  `json:"monoid,omitempty"`
 
-	IntervalMs int `json:"interval_ms,omitempty"` // Throttling interval / Emit frequency
+	IntervalMs int   `json:"interval_ms,omitempty"` // Throttling interval / Emit frequency
 	FnStallMs  []int `json:"fn_stall_ms,omitempty"` // virtual sleep inside user-function call i (cyclic)
-	FnYields   int `json:"fn_yields,omitempty"`    // extra scheduling points inside the user function
+	FnYields   int   `json:"fn_yields,omitempty"`   // extra scheduling points inside the user function
 
 	Producers []ProducerPlan `json:"producers,omitempty"`
 	Consumers []ConsumerPlan `json:"consumers,omitempty"`
 
-	CancelStep int `json:"cancel_step"`          // driver cancels the context before this step; −1: never
-	CancelMs   int `json:"cancel_ms,omitempty"`  // >0: a canceller task cancels at this virtual time
+	CancelStep  int  `json:"cancel_step"`             // driver cancels the context before this step; −1: never
+	CancelMs    int  `json:"cancel_ms,omitempty"`     // >0: a canceller task cancels at this virtual time
 	CancelAtEnd bool `json:"cancel_at_end,omitempty"` // cancel once everything is quiescent (what the unit tests do)
 
 	// C08
-	Senders    [][]int `json:"senders,omitempty"`
-	Receivers  int     `json:"receivers,omitempty"`
-	SenderClose bool   `json:"sender_close,omitempty"`
-	RecvStart  int     `json:"recv_start,omitempty"` // receiver idles until this many sends completed (−1: never receives)
-	Waves      int     `json:"waves,omitempty"`
+	Senders     [][]int `json:"senders,omitempty"`
+	Receivers   int     `json:"receivers,omitempty"`
+	SenderClose bool    `json:"sender_close,omitempty"`
+	RecvStart   int     `json:"recv_start,omitempty"` // receiver idles until this many sends completed (−1: never receives)
+	Waves       int     `json:"waves,omitempty"`
 
 	// scheduling
 	Policy    string `json:"policy"`
@@ -62,7 +62,7 @@ type Plan struct {
 	PreemptN  int    `json:"preempt_n,omitempty"`
 	PoolEvict bool   `json:"pool_evict,omitempty"`
 
-	Chain []string `json:"chain,omitempty"` // stage chain (thorough tier)
+	Chain []string       `json:"chain,omitempty"` // stage chain (thorough tier)
 	Extra map[string]int `json:"extra,omitempty"`
 }
 
